@@ -78,6 +78,8 @@ def run(index, tier="quick", seed=0) -> Result:
         raise AnalysisError(f"only {nobs} (class, observable) degree obligations; ~190 confirmed")
     if len(sc.sites) < 120:
         raise AnalysisError(f"only {len(sc.sites)} decision sites enumerated; 152 confirmed")
+    from ..dimscan import report_translation
+    report_translation(res, sc, lambda func, path: True, "all public entries")
     return res
 
 
